@@ -1,6 +1,7 @@
 // Port-only generation monitor used by C03 (energy budget, window), C04 (well-formed, bounded work)
 // and C08 (the same workload under ASan/UBSan).
-// usage: gen_monitor <specfile> <seed> <n_iid> <n_grid> <hostile 0|1> <shard> <nshards>
+// usage: gen_monitor <specfile> <seed> <n_iid> <n_grid> <hostile 0|1> <shard> <nshards> [deep_events]
+//   (D lines may end with 'T thr thr ...': branching thresholds of the daughter's de-excitation scheme)
 //   spec lines:
 //     B <name> [thr ...]
 //     D <name> <level> <mode> <e1> <e2> <window 0|1> <Q> <budget: 0 le | 1 eq> <chain 0|1> <tolerance MeV> [work bound]
@@ -16,6 +17,7 @@
 #include <bxdecay0/event.h>
 
 #include "diffcore_port.h"
+#include "steer.h"
 
 using namespace verif;
 
@@ -39,7 +41,7 @@ struct Spec
   }
 };
 
-static void run(const Spec & sp, uint64_t seed, long n_iid, int n_grid, bool hostile)
+static void run(const Spec & sp, uint64_t seed, long n_iid, int n_grid, bool hostile, long deep_events)
 {
   std::string lab = sp.label();
   Stats st;
@@ -75,7 +77,9 @@ static void run(const Spec & sp, uint64_t seed, long n_iid, int n_grid, bool hos
   uint64_t stream = (hash_str(lab) & 0xffffff) << 24;
   double tsum_min = 1e9, tsum_max = -1e9;
 
+  uint64_t last_sig = 0;
   auto one = [&](const std::string & steer) -> size_t {
+    last_sig = 0;
     bxdecay0::event ev;
     tape.rewind();
     bool ok = true;
@@ -112,7 +116,8 @@ static void run(const Spec & sp, uint64_t seed, long n_iid, int n_grid, bool hos
     }
     std::string k, dt;
     if (!wellformed(ev, sp.name, emax, k, dt)) rec(st.wf, lab + "|" + k, dt);
-    st.sigs.insert(hash_str(signature(ev)));
+    last_sig = hash_str(signature(ev));
+    st.sigs.insert(last_sig);
     if (sp.kind == 'D') {
       const auto & pp = ev.get_particles();
       double evis = 0;
@@ -124,9 +129,9 @@ static void run(const Spec & sp, uint64_t seed, long n_iid, int n_grid, bool hos
       double diff = evis - sp.Q;
       hist[std::lround(diff * 1000.0)]++;
       if (sp.budget_eq) {
-        if (!(std::fabs(diff) <= sp.tol)) rec(budget, lab + "|budget-eq", fmt("visible energy %.6f MeV, Q = %.6f MeV (difference %+.1f keV)", evis, sp.Q, diff * 1000));
+        if (!(std::fabs(diff) <= sp.tol)) rec(budget, lab + fmt("|budget-eq|%+ldkeV", std::lround(diff * 1000.0)), fmt("visible energy %.6f MeV, Q = %.6f MeV (difference %+.1f keV)", evis, sp.Q, diff * 1000));
       } else {
-        if (!(diff <= sp.tol)) rec(budget, lab + "|budget-le", fmt("visible energy %.6f MeV exceeds Q = %.6f MeV by %.1f keV", evis, sp.Q, diff * 1000));
+        if (!(diff <= sp.tol)) rec(budget, lab + fmt("|budget-le|%+ldkeV", std::lround(diff * 1000.0)), fmt("visible energy %.6f MeV exceeds Q = %.6f MeV by %.1f keV", evis, sp.Q, diff * 1000));
       }
       if (sp.window && pp.size() >= 2) {
         double ts = ekin(pp[0]) + (sp.mode == 10 ? 0.0 : ekin(pp[1]));
@@ -186,13 +191,21 @@ static void run(const Spec & sp, uint64_t seed, long n_iid, int n_grid, bool hos
       one(fmt("cells 0..39=%.17g", v));
     }
   }
+  // deep steering: frontier search over pinned cells (rare branches of rare branches)
+  DeepSteerStats ds;
+  if (deep_events > 0 && !sp.thr.empty()) {
+    ds = deep_steer(tape, seed, stream + 1000, sp.thr, deep_events, 4, [&](const std::string & steer, size_t & d) {
+      d = one(steer);
+      return last_sig;
+    });
+  }
   std::sort(st.draws_hist.begin(), st.draws_hist.end());
   size_t p999 = st.draws_hist.empty() ? 0 : st.draws_hist[(size_t)(0.999 * (st.draws_hist.size() - 1))];
   fprintf(OUT, "{\"config\":%s,\"accepted\":true,\"kind\":\"%c\",\"name\":%s,\"level\":%d,\"mode\":%d,\"window\":%s,\"e1\":%s,\"e2\":%s,\"toallevents\":%s,"
-               "\"events\":%ld,\"distinct_signatures\":%zu,\"max_draws\":%zu,\"p999_draws\":%zu,\"cap_hits\":%ld,\"tsum_min\":%s,\"tsum_max\":%s,\"sample\":%s,\"hist\":{",
+               "\"events\":%ld,\"distinct_signatures\":%zu,\"max_draws\":%zu,\"p999_draws\":%zu,\"cap_hits\":%ld,\"tsum_min\":%s,\"tsum_max\":%s,\"deep\":[%ld,%ld,%ld,%ld,%ld],\"sample\":%s,\"hist\":{",
           jstr(lab).c_str(), sp.kind, jstr(sp.name).c_str(), sp.level, sp.mode, sp.window ? "true" : "false", jnum(sp.e1).c_str(), jnum(sp.e2).c_str(),
           jnum(toall).c_str(), st.events, st.sigs.size(), st.max_draws, p999, st.cap_hits, jnum(tsum_min).c_str(), jnum(tsum_max).c_str(),
-          st.sample.empty() ? "null" : st.sample.c_str());
+          ds.events, ds.nodes_expanded, ds.nodes_found, ds.max_depth, ds.frontier_left, st.sample.empty() ? "null" : st.sample.c_str());
   bool first = true;
   for (auto & kv : hist) {
     fprintf(OUT, "%s\"%ld\":%ld", first ? "" : ",", kv.first, kv.second);
@@ -217,6 +230,7 @@ int main(int argc, char ** argv)
   int n_grid = atoi(argv[4]);
   bool hostile = atoi(argv[5]) != 0;
   int shard = atoi(argv[6]), nshards = atoi(argv[7]);
+  long deep_events = argc > 8 ? atol(argv[8]) : 0;
   std::ifstream in(argv[1]);
   std::string line;
   int idx = 0;
@@ -239,10 +253,16 @@ int main(int argc, char ** argv)
       ls >> sp.level >> sp.mode >> sp.e1 >> sp.e2 >> w >> sp.Q >> sp.budget_eq >> ch >> sp.tol;
       double wb = 0;
       if (ls >> wb) sp.work_bound = (size_t)wb;
+      std::string tk;
+      if (ls >> tk && tk == "T") {
+        double v;
+        while (ls >> v)
+          if (v > 0 && v < 1) sp.thr.push_back(v);
+      }
       sp.window = w != 0;
       sp.chain = ch != 0;
     }
-    run(sp, seed, n_iid, n_grid, hostile);
+    run(sp, seed, n_iid, n_grid, hostile, deep_events);
   }
   return 0;
 }
